@@ -54,7 +54,10 @@ where
     R: Read,
 {
     fn fill_buf(&mut self) -> io::Result<&[u8]> {
+        #[cfg(not(kani))]
         const MAX_BUFFER_LEN: usize = 64 * 1024;
+        #[cfg(kani)]
+        const MAX_BUFFER_LEN: usize = crate::verif::MAX_BUFFER_LEN;
 
         if self.buffer.len() == self.consumed && !(self.remaining == 0 && self.reached_eof) {
             if self.remaining == 0 {
@@ -154,3 +157,6 @@ fn test_read_invalid_bad_terminating_chunk() {
         io::ErrorKind::UnexpectedEof
     );
 }
+
+#[cfg(kani)]
+include!(concat!(env!("ATTOHTTPC_VERIF_HARNESS"), "/chunked_reader.rs"));
